@@ -6,7 +6,7 @@ import struct
 from typing import Any, Dict, Iterator, List, Optional, Tuple
 
 from .. import wire
-from ..explore import Stats, Violation, digest, guarded_problem, pmap_iter
+from ..explore import Stats, Violation, WatchdogTimeout, digest, guarded_problem, pmap_iter, watchdog
 from ..models.responder_model import Svc
 from ..scen import Decoded, RandPolicy, make_info, register
 from ..world import HarnessError, World, set_debug_logging
@@ -461,7 +461,11 @@ def run(tier: str, seed: int) -> Tuple[Stats, str, List[str], Dict[str, Any]]:
     # all ordered pairs of one representative per (kind, decoder outcome class)
     reps: Dict[str, bytes] = {}
     for kind, d in corp:
-        oc = D.check_datagram(d, count_calls=False)[1]
+        try:
+            with watchdog():
+                oc = D.check_datagram(d, count_calls=False)[1]
+        except (WatchdogTimeout, MemoryError):
+            oc = "nonterminating"  # (reported by the single deliveries above)
         reps.setdefault(f"{kind}/{oc}", d)
     pairs = [([("a", a), ("b", b)], 0) for a, b in itertools.permutations(list(reps.values()), 2)]
     for (c, v), (problem, oc) in zip(pairs, pmap_iter(guarded_problem(run_stream), pairs, chunk=16)):
